@@ -363,7 +363,7 @@ func (o *observer) At(point string, obj any, a, b int64) {
 // ---------------------------------------------------------------- driver
 
 type stats struct {
-	behaviours, ops, notQuiet, askTimeouts atomic.Int64
+	behaviours, ops, notQuiet, askTimeouts, implicitTicks atomic.Int64
 }
 
 type driver struct {
@@ -578,6 +578,9 @@ func (d *driver) runBehaviour(ctx context.Context, id int, b *behaviour) []map[s
 	for i, o := range b.Ops {
 		d.stats.ops.Add(1)
 		before := d.lastFaults(f)
+		f.mu.Lock()
+		opStart := len(f.lines) // index of the first line this operation will write
+		f.mu.Unlock()
 		switch o.Op {
 		case "Fault":
 			when := "quiet"
@@ -652,6 +655,20 @@ func (d *driver) runBehaviour(ctx context.Context, id int, b *behaviour) []map[s
 		d.evMu.Lock()
 		obs := d.observe(ctx, f, before)
 		d.evMu.Unlock()
+		if o.Op == "Fault" && o.When != "pending" && (i == 0 || b.Ops[i-1].Op != "Tick") {
+			// the machine was so slow that a fault recorded now found its predecessor older than the
+			// short window although the behaviour did not ask for a Tick: say so in the trace (the
+			// monitor judges on the measured flags anyway; this keeps the conformance spec in step)
+			for _, v := range obs["x"].(map[string]any) {
+				if v.(bool) {
+					f.mu.Lock()
+					f.lines = append(f.lines[:opStart], append([]map[string]any{{"op": "Tick", "implicit": true}}, f.lines[opStart:]...)...)
+					f.mu.Unlock()
+					d.stats.implicitTicks.Add(1)
+					break
+				}
+			}
+		}
 		f.log(obs)
 	}
 	// tear the family down
@@ -716,6 +733,6 @@ func main() {
 	}
 	verifhook.Uninstall()
 	out, _ := json.Marshal(map[string]any{"behaviours": st.behaviours.Load(), "ops": st.ops.Load(),
-		"events": n, "not_quiet": st.notQuiet.Load(), "ask_timeouts": st.askTimeouts.Load()})
+		"events": n, "not_quiet": st.notQuiet.Load(), "ask_timeouts": st.askTimeouts.Load(), "implicit_ticks": st.implicitTicks.Load()})
 	fmt.Println(string(out))
 }
